@@ -17,6 +17,7 @@ def main(argv):
     faulthandler.register(signal.SIGUSR1, all_threads=True)
     from vlab.report import Report
     rep = Report(prop, tier, int(seed), int(shard), int(nshards), float(budget))
+    rep.checkpoint_path = outfile + '.ckpt'
     crashed = None
     try:
         mod = importlib.import_module(f'vlab.props.{prop.lower()}')
